@@ -8,7 +8,7 @@ SPEC = {
     },
     # which closer wins (its reason, and with it whether the peer is notified) depends on the schedule;
     # holds checks that the pair is consistent with one of the callers
-    "strip_obs": r" reason -?\d+ notify \d+| upd \d+| cstats \d+ \d+",
+    "strip_obs": r" reason -?\d+ notify \d+| upd \d+| cstats \d+ \d+| called \d+",
     "rule": ("five executors driving the real code: disp (Dispose.Close, N closers behind a spin barrier, H counting handlers, "
              "every error mask), tun (client Tunnel with a real manager, real Start goroutines and pipes; closers = Close(reason), "
              "peer notification, CloseAll, fatal error, both peers hanging up; every pair of closers and random crowds of 3-8, "
